@@ -41,8 +41,96 @@ type c17plan struct {
 }
 
 func c17(c *wk.Ctx) {
-	c.Note("rule", "each plan: one endpoint over a harness stream, 2-12 goroutines released by a barrier doing PRNG-chosen MakeHandler / AddHandler / ReceiveAny (filters: never/always/pattern x keep/self-remove after n, with scheduling yields inside the filter), RemoveHandler (live, stale, unknown, negative ids), peer frames, then local Close() or peer close, possibly concurrent with further operations. Oracle at quiescence (decided by the goroutine-state quiescence detector, not a timeout): every handler whose MakeHandler returned before shutdown started has closer==1 and queue closed once; others <=1; no filter match after the closer ran; RemoveHandler of unknown/removed ids returns an error; an id is never handed out while its previous holder is still open; no panic (child crash), no deadlock. Distinct non-trivial = distinct plans in which at least two goroutines operated on the handler table and shutdown closed at least one handler.")
+	c.Note("rule", "each plan: one endpoint over a harness stream, 2-12 goroutines released by a barrier doing PRNG-chosen MakeHandler / AddHandler / ReceiveAny (filters: never/always/pattern x keep/self-remove after n, with scheduling yields inside the filter), RemoveHandler (live, stale, unknown, negative ids), peer frames, then local Close() or peer close, possibly concurrent with further operations. Oracle at quiescence (decided by the goroutine-state quiescence detector, not a timeout): every handler whose MakeHandler returned before shutdown started has closer==1 and queue closed once; others <=1; no filter match after the closer ran; RemoveHandler of unknown/removed ids returns an error; an id is never handed out while its previous holder is still open; no panic (child crash), no deadlock; stream blocked-reply = the connection is shut down (locally or by the peer) while the endpoint is blocked writing a 'consumer blocked' reply to a peer that does not read (bounded harness stream): the shutdown must complete and every handler be closed once. Distinct non-trivial = distinct plans in which at least two goroutines operated on the handler table and shutdown closed at least one handler.")
 	c.Cases("plan", c.Pick(5000, 100000), func(i int, rng *rand.Rand) { c17one(c, i, rng) })
+	c.Cases("blocked-reply", c.Pick(60, 3000), func(i int, rng *rand.Rand) { c17blocked(c, i, rng) })
+}
+
+// c17blocked: the endpoint is busy answering "consumer blocked" to a peer that does not read (its
+// write is blocked, like on a full socket buffer) when the connection is shut down: the shutdown
+// must complete and every handler must be closed once.
+func c17blocked(c *wk.Ctx, i int, rng *rand.Rand) {
+	var progress int64
+	a, b := ctl.Pair("endpoint", "peer", &progress)
+	a.MaxBuffer = 1 + rng.Intn(40)
+	ep := qnet.NewEndPoint(a)
+	type hh struct {
+		closer, qclosed int32
+		queue           chan *qnet.Message
+	}
+	n := 1 + rng.Intn(3)
+	hs := make([]*hh, n)
+	release := make(chan struct{})
+	var wg sync.WaitGroup
+	for k := range hs {
+		h := &hh{queue: make(chan *qnet.Message, 1)}
+		hs[k] = h
+		ep.MakeHandler(func(*qnet.Header) (bool, bool) { return true, true }, h.queue, func(error) { atomic.AddInt32(&h.closer, 1) })
+		wg.Add(1)
+		go func() {
+			defer wg.Done()
+			<-release // a consumer that does not drain its queue until the shutdown
+			for range h.queue {
+			}
+			atomic.AddInt32(&h.qclosed, 1)
+		}()
+	}
+	frames := 3 + rng.Intn(6)
+	for k := 0; k < frames; k++ {
+		b.Write(rc.Frame(rc.Header{Magic: rc.Magic, ID: uint32(k), Type: qnet.Call, Service: 1, Object: 1, Action: 7}, nil))
+	}
+	// wait until the endpoint is really blocked in its reply (or has nothing left to do)
+	stuck.WaitFunc(func() bool { return atomic.LoadInt64(&a.BlockedWrites) > 0 }, &progress, 20*time.Second)
+	blocked := atomic.LoadInt64(&a.BlockedWrites) > 0
+	how := []string{"local Close", "peer close"}[rng.Intn(2)]
+	done := make(chan struct{})
+	go func() {
+		if how == "local Close" {
+			ep.Close()
+		} else {
+			b.Close()
+		}
+		close(done)
+	}()
+	detail := map[string]interface{}{"handlers": n, "frames": frames, "max_buffer": a.MaxBuffer, "shutdown": how, "reply_write_blocked": blocked}
+	v, dump := stuck.Wait(done, &progress, 2*time.Minute)
+	if v == stuck.Stuck {
+		detail["dump"] = clipDump(dump)
+		c.Viol("blocked-reply", i, "deadlock=shutdown-while-replying/"+wk.PanicSite(dump), "shutting the connection down never completed while the endpoint was blocked writing a reply", detail)
+		return
+	}
+	close(release)
+	settled := func() bool {
+		for _, h := range hs {
+			if atomic.LoadInt32(&h.closer) < 1 || atomic.LoadInt32(&h.qclosed) < 1 {
+				return false
+			}
+		}
+		return true
+	}
+	v, dump = stuck.WaitFunc(settled, &progress, 2*time.Minute)
+	if v == stuck.Stuck {
+		detail["dump"] = clipDump(dump)
+		c.Viol("blocked-reply", i, "closer=never/blocked-reply", "a handler registered before shutdown was never closed (the endpoint was blocked writing a reply)", detail)
+		ep.Close()
+		b.Close()
+		return
+	}
+	for _, h := range hs {
+		if atomic.LoadInt32(&h.closer) > 1 {
+			c.Viol("blocked-reply", i, "closer=twice/blocked-reply", "a handler was closed twice", detail)
+		}
+	}
+	ep.Close()
+	b.Close()
+	if blocked {
+		c.Nontrivial(wk.Hash64("C17blocked", i))
+		c.Count("shutdowns_with_a_blocked_reply_write", 1)
+	}
+	if c.WantSample() && i%10 == 0 {
+		detail["stream"] = "blocked-reply"
+		c.Sample(detail)
+	}
 }
 
 func c17one(c *wk.Ctx, i int, rng *rand.Rand) {
